@@ -10,7 +10,7 @@ use crate::search::{self, Geometry, SearchOut, SearchSpec, POS_INF};
 use proptest::prelude::*;
 use serde::{Deserialize, Serialize};
 use serde_json::{json, Value};
-use std::sync::OnceLock;
+use std::sync::{Mutex, OnceLock};
 
 pub struct TbData {
     pub tb: Tb,
@@ -376,6 +376,224 @@ impl Prop for SolverMates {
 }
 
 
+// ------------------------------------------- mates whose only key move is a special move
+
+/// Positions (White to move; mirrored for Black at use) with a mate in one ply where EVERY mating
+/// move is of one special kind: an en-passant capture (0), an under-promotion (1) or castling (2).
+/// A search that loses such a move anywhere - move generation shortcuts, evasion filters, move
+/// ordering that drops a duplicate - cannot find the mate. Mined by seeded construction: a pure
+/// function of the trial index.
+pub struct SpecialPool {
+    pub list: Vec<(Pos, u8, bool)>,
+    pub trials: u64,
+}
+
+fn special_trial(i: u64) -> Option<(Pos, u8, bool)> {
+    use crate::oracle::rules::{Col, Kind};
+    let mut x = i.wrapping_mul(0x9E3779B97F4A7C15) ^ 0x5eed_c06;
+    let mut r = |n: usize| (crate::runner::splitmix(&mut x) % n as u64) as usize;
+    // castling mates are common, the other two kinds are rare: 5 / 2 / 1 out of 8 trials
+    let kind = [0u8, 0, 0, 0, 0, 1, 1, 2][(i % 8) as usize];
+    let mut p = Pos::empty(Col::W);
+    // the defender's king on the rim (mates in one are found there)
+    let rim: Vec<usize> = (0..64).filter(|s| s / 8 == 0 || s / 8 == 7 || s % 8 == 0 || s % 8 == 7).collect();
+    let bk = if r(4) == 0 { r(64) } else { rim[r(rim.len())] };
+    p.b[bk] = Some((Col::B, Kind::K));
+    let wk = if kind == 2 { 4 } else { r(64) };
+    if p.b[wk].is_some() {
+        return None;
+    }
+    p.b[wk] = Some((Col::W, Kind::K));
+    let put = |p: &mut Pos, s: usize, c: Col, k: Kind| -> bool {
+        if p.b[s].is_some() || (k == Kind::P && (s / 8 == 0 || s / 8 == 7)) {
+            return false;
+        }
+        p.b[s] = Some((c, k));
+        true
+    };
+    match kind {
+        0 => {
+            // Black has just played f7-f5 (any file): pawn on rank 5, target on rank 6, a white pawn beside it
+            let f = r(8);
+            let side = if f == 0 { 1 } else if f == 7 { 6 } else if r(2) == 0 { f - 1 } else { f + 1 };
+            if p.b[32 + f].is_some() || p.b[40 + f].is_some() || p.b[48 + f].is_some() || p.b[32 + side].is_some() {
+                return None;
+            }
+            p.b[32 + f] = Some((Col::B, Kind::P));
+            p.b[32 + side] = Some((Col::W, Kind::P));
+            p.ep = Some(40 + f);
+        }
+        1 => {
+            let f = r(8);
+            if p.b[48 + f].is_some() {
+                return None;
+            }
+            p.b[48 + f] = Some((Col::W, Kind::P));
+        }
+        _ => {
+            let rook = if r(2) == 0 { 7 } else { 0 };
+            if p.b[rook].is_some() {
+                return None;
+            }
+            p.b[rook] = Some((Col::W, Kind::R));
+            p.cas[if rook == 7 { 0 } else { 1 }] = true;
+        }
+    }
+    let kinds = [Kind::Q, Kind::R, Kind::B, Kind::N, Kind::P, Kind::R, Kind::Q];
+    for _ in 0..r(4) {
+        let k = kinds[r(kinds.len())];
+        put(&mut p, r(64), Col::W, k);
+    }
+    for _ in 0..r(5) {
+        let k = [Kind::P, Kind::P, Kind::N, Kind::B, Kind::R, Kind::Q][r(6)];
+        // the defender's own men mostly next to his king (they take away flight squares)
+        let s = if r(3) > 0 { let d = crate::oracle::rules::KING_D[r(8)]; crate::oracle::rules::off(bk, d).unwrap_or(r(64)) } else { r(64) };
+        put(&mut p, s, Col::B, k);
+    }
+    if kind == 0 {
+        // squares the double step passed over must still be empty, the target too
+        let t = p.ep.unwrap();
+        if p.b[t].is_some() || p.b[t + 8].is_some() {
+            return None;
+        }
+    }
+    if !p.is_legal_position() {
+        return None;
+    }
+    let legal = p.legal();
+    let mating: Vec<&crate::oracle::rules::Mv> = legal.iter().filter(|(_, n)| !n.has_legal_move() && n.in_check(n.stm)).map(|x| &x.0).collect();
+    if mating.is_empty() {
+        return None;
+    }
+    let special = |m: &crate::oracle::rules::Mv| match kind {
+        0 => m.ep,
+        1 => matches!(m.promo, Some(Kind::N) | Some(Kind::B) | Some(Kind::R)),
+        _ => m.castle.is_some(),
+    };
+    if !mating.iter().all(|m| special(m)) {
+        return None;
+    }
+    let in_check = p.in_check(Col::W);
+    Some((p, kind, in_check))
+}
+
+pub fn special_pool(ctx: &Ctx) -> &'static SpecialPool {
+    static P: OnceLock<SpecialPool> = OnceLock::new();
+    P.get_or_init(|| {
+        let trials: u64 = 8_000_000;
+        let threads = ctx.threads.max(1) as u64;
+        let found: Mutex<Vec<(u64, Pos, u8, bool)>> = Mutex::new(vec![]);
+        std::thread::scope(|sc| {
+            for t in 0..threads {
+                let found = &found;
+                sc.spawn(move || {
+                    let mut mine = vec![];
+                    let mut i = t;
+                    while i < trials {
+                        if let Some((p, k, c)) = special_trial(i) {
+                            mine.push((i, p, k, c));
+                        }
+                        i += threads;
+                    }
+                    found.lock().unwrap().extend(mine);
+                });
+            }
+        });
+        let mut v = found.into_inner().unwrap();
+        v.sort_by_key(|x| x.0);
+        let mut seen = std::collections::HashSet::new();
+        let mut list = vec![];
+        for (_, p, k, c) in v {
+            if seen.insert(p.fen4()) {
+                list.push((p, k, c));
+            }
+        }
+        SpecialPool { list, trials }
+    })
+}
+
+pub struct SpecialKeyMates;
+
+impl DynProp for SpecialKeyMates {
+    fn name(&self) -> &'static str {
+        "special_key_mates"
+    }
+    fn run(&self, ctx: &Ctx, cases: u64) {
+        let pool = special_pool(ctx);
+        let per_kind = |k: u8| pool.list.iter().filter(|x| x.1 == k).count();
+        ctx.extra("special_pool", json!({"trials": pool.trials, "en_passant": per_kind(0), "under_promotion": per_kind(1), "castling": per_kind(2),
+            "side_to_move_in_check": pool.list.iter().filter(|x| x.2).count()}));
+        // take the kinds in turn so that the rare ones are not crowded out
+        let mut order: Vec<usize> = vec![];
+        let by_kind: Vec<Vec<usize>> = (0..3u8).map(|k| pool.list.iter().enumerate().filter(|(_, x)| x.1 == k).map(|x| x.0).collect()).collect();
+        let longest = by_kind.iter().map(|v| v.len()).max().unwrap_or(0);
+        for j in 0..longest {
+            for v in by_kind.iter() {
+                if j < v.len() {
+                    order.push(v[j]);
+                }
+            }
+        }
+        let n = (order.len() as u64).min(cases);
+        par_range(ctx, "special_key_mates", n * 6, |i, loc| {
+            let (p0, kind, in_check) = &pool.list[order[(i / 6) as usize]];
+            let mirrored = (i % 6) >= 3;
+            let depth = (i % 3) as u8 + 1;
+            let pos = if mirrored { p0.mirror() } else { p0.clone() };
+            let seed = crate::runner::h64(&(i, ctx.seed));
+            let spec = SearchSpec { depth: Some(depth), seed, workers: 1, sched_seed: None, cancel_after: None };
+            let (out, _) = search::run(&pos, &spec, search::new_artifact(seed ^ 7, GEOM), usize::MAX);
+            loc.eval();
+            let kname = ["an en-passant capture", "an under-promotion", "castling"][*kind as usize];
+            let what = format!("search of '{}' (mate in 1 ply, only by {}; {:?})", pos.fen(), kname, spec);
+            let case = json!({"fen": pos.fen(), "depth": depth, "seed": seed});
+            if let Some(pm) = &out.panic {
+                return Err((case, format!("{} panicked: {}", what, pm)));
+            }
+            for b in out.best.iter() {
+                search::check_line(&pos, &b.line).map_err(|e| (case.clone(), format!("{}: {}", what, e)))?;
+            }
+            let Some(last) = out.best.last() else { return Err((case, format!("{} reported nothing", what))) };
+            if last.eval < POS_INF {
+                return Err((case, format!("{}: depth limit {} >= 1 but the final evaluation is {} (line {})", what, depth, last.eval, last.line.iter().map(|m| m.lan()).collect::<Vec<_>>().join(" "))));
+            }
+            // the first move keeps the mate: it mates at once, or the solver proves the reply position lost; otherwise undecided
+            let succ = pos.apply(&last.line[0]);
+            let mut s = Solver::new(300_000);
+            let kept = if !succ.has_legal_move() && succ.in_check(succ.stm) { Some(true) } else { s.lost_within(&succ, 6) };
+            loc.class(match kept { Some(true) => "special:first_move_proved_to_keep_mate", Some(false) => "special:first_move_not_mating_within_7_plies_undecided", None => "special:first_move_undecided" });
+            loc.class(["special:key_en_passant", "special:key_under_promotion", "special:key_castling"][*kind as usize]);
+            if *in_check {
+                loc.class("special:side_to_move_in_check");
+            }
+            loc.nontrivial(&(pos.fen4(), depth));
+            if i % 97 == 0 {
+                loc.sample(|| json!({"fen": pos.fen(), "key": kname, "depth": depth, "eval": last.eval, "first_move": last.line[0].lan()}));
+            }
+            Ok(())
+        });
+    }
+    fn replay(&self, _: &Ctx, case: &Value) -> Result<(), String> {
+        let pos = Pos::from_fen(case["fen"].as_str().ok_or("no fen")?).ok_or("bad fen")?;
+        let depth = case["depth"].as_u64().unwrap_or(1) as u8;
+        let seed = case["seed"].as_u64().unwrap_or(0);
+        let spec = SearchSpec { depth: Some(depth), seed, workers: 1, sched_seed: None, cancel_after: None };
+        let (out, _) = search::run(&pos, &spec, search::new_artifact(seed ^ 7, GEOM), usize::MAX);
+        if let Some(pm) = &out.panic {
+            return Err(format!("search of '{}' panicked: {}", pos.fen(), pm));
+        }
+        let mates_in_one = pos.legal().iter().any(|(_, n)| !n.has_legal_move() && n.in_check(n.stm));
+        if !mates_in_one {
+            return Err("the replay position has no mate in one".into());
+        }
+        match out.best.last() {
+            Some(b) if b.eval >= POS_INF => Ok(()),
+            Some(b) => Err(format!("search of '{}' ({:?}): mate in 1 ply exists, depth limit {}, final evaluation {}", pos.fen(), spec, depth, b.eval)),
+            None => Err(format!("search of '{}' reported nothing", pos.fen())),
+        }
+    }
+}
+
 // ------------------------------------------------------- exact 4-man families (thorough)
 
 /// K + two white pieces v K: exact soundness and completeness on a stride sample.
@@ -513,6 +731,7 @@ pub fn plan(ctx: &Ctx) -> Plan {
             (Box::new(TbCompleteness), t.pick(8_000, 300_000)),
             (Box::new(TbSoundness { max_depth: 5 }), t.pick(61, 5)),
             (Box::new(SolverMates), t.pick(30_000, 1_000_000)),
+            (Box::new(SpecialKeyMates), t.pick(1_500, 1_000_000)),
             (Box::new(Tb4Exact { families: &[(crate::oracle::rules::Kind::R, crate::oracle::rules::Kind::R), (crate::oracle::rules::Kind::Q, crate::oracle::rules::Kind::R), (crate::oracle::rules::Kind::Q, crate::oracle::rules::Kind::N)] }), t.pick(0, 401)),
         ],
         rule: "oracle = exact retrograde tablebases for K v K, KQK, KRK, KBK, KNK, KPK built at start-up from the rules \
@@ -524,7 +743,11 @@ pub fn plan(ctx: &Ctx) -> Plan {
                with evaluation >= POS_INF needs a tablebase win and a preserving first move; won roots within the depth \
                must be found. Generated sparse positions: exact mate distance <= 5 (<= 3 with more than 7 men) by the \
                solver, then the same completeness rule; the first move is proved to keep the mate by bounded proof search \
-               or counted as undecided - never refuted. Thorough only: exact tables for K + two white pieces v K \
+               or counted as undecided - never refuted. Special keys (special_key_mates): 8 M seeded \
+               constructions are filtered for positions with a mate in one ply in which every mating move is an en-passant \
+               capture, an under-promotion or castling (a few hundred; some with the side to move in check); each is searched \
+               (also colour-mirrored) at depth 1-3 from fresh memory and must end with evaluation >= POS_INF. \
+               Thorough only: exact tables for K + two white pieces v K \
                (KRRK, KQRK, KQNK; 33 M positions each, self-checked against the solver on 1500 samples each run) give \
                exact soundness and completeness on a 1/401 stride sample of those families (captures lead into the \
                3-man tables). Non-trivial = distinct cases with mate distance >= 3, or >= 2 \
